@@ -473,6 +473,17 @@ class _Chains:
         if isinstance(e, ast.Name):
             if e.id == self.val:
                 return [] if self.prefix is None or self._in_prefix else list(self.prefix)
+            # bound by tuple unpacking (`head, _sep, _rest = val.partition(T)`): the i-th element of the value
+            unpack = [(st, i) for st in walk(self.fi.node) if isinstance(st, ast.Assign) and len(st.targets) == 1
+                      and isinstance(st.targets[0], (ast.Tuple, ast.List))
+                      and not any(isinstance(t, ast.Starred) for t in st.targets[0].elts)
+                      for i, t in enumerate(st.targets[0].elts) if isinstance(t, ast.Name) and t.id == e.id]
+            if unpack:
+                binds = [b for b in stores(self.fi.node, into_defs=False) if b.path == e.id]
+                if len(unpack) != 1 or len(binds) != 1:
+                    return None
+                inner = self.chain(unpack[0][0].value, depth + 1)
+                return None if inner is None else inner + [("idx", "", (unpack[0][1],))]
             vals = assigned_value(self.fi.node, e.id)
             if len(vals) == 1:
                 return self.chain(vals[0], depth + 1)
@@ -539,14 +550,57 @@ def _cv_expr(repo, fi: FuncInfo, node):
     if isinstance(node, ast.Attribute) and isinstance(node.value, ast.Name) and fi.cls is not None \
             and node.value.id in ("cls", "self", fi.cls.name):
         v = _class_const(repo, fi.cls, node.attr)
+        if v is None:
+            raw, owner = _class_attr(repo, fi.cls, node.attr)
+            if raw is not None and not isinstance(raw, ast.Attribute):
+                return _cv_expr(repo, fi, raw)
         return (v is not None), v
     if isinstance(node, ast.BinOp) and isinstance(node.op, ast.Add):
         (ok1, a), (ok2, b) = _cv_expr(repo, fi, node.left), _cv_expr(repo, fi, node.right)
         if ok1 and ok2 and type(a) is type(b):
             return True, a + b
         return False, None
+    if isinstance(node, ast.Call) and ap(node.func) in ("frozenset", "set", "tuple", "list") and len(node.args) == 1 \
+            and not node.keywords:
+        ok, inner = _cv_expr(repo, fi, node.args[0])
+        return (ok and isinstance(inner, (tuple, list, frozenset)), tuple(inner) if ok else None)
     v = ConstEval(repo, fi.module).ev(node)
     return (True, _plain(v)) if is_const(v) else (False, None)
+
+
+def _llsd_xml_meaning(text):
+    """Value denoted by a (small, constant) LLSD XML document, per the LLSD XML format: (True, value), or
+    (False, None) when the text is not a well-formed document of the supported scalar / empty-container kinds."""
+    import xml.etree.ElementTree as ET
+    try:
+        root = ET.fromstring(text)
+    except Exception:
+        return False, None
+    if root.tag != "llsd" or len(root) != 1:
+        return False, None
+
+    def val(el):
+        t = el.tag
+        if t == "undef":
+            return None
+        if t == "map":
+            kids = list(el)
+            if len(kids) % 2:
+                raise ValueError
+            return {kids[i].text or "": val(kids[i + 1]) for i in range(0, len(kids), 2)}
+        if t == "array":
+            return [val(k) for k in el]
+        if t == "string":
+            return el.text or ""
+        if t == "integer":
+            return int(el.text or 0)
+        if t == "boolean":
+            return (el.text or "").strip() in ("1", "true")
+        raise ValueError
+    try:
+        return True, val(root[0])
+    except Exception:
+        return False, None
 
 
 def _branches(repo, fi: FuncInfo) -> Tuple[List[Tuple[list, list]], Optional[str]]:
@@ -583,6 +637,12 @@ def _branches(repo, fi: FuncInfo) -> Tuple[List[Tuple[list, list]], Optional[str
                     if okc:
                         vguards.append(("eq", cst, pol == isinstance(e.ops[0], ast.Eq)))
                         continue
+            if isinstance(e, ast.Compare) and len(e.ops) == 1 and isinstance(e.ops[0], (ast.In, ast.NotIn)) \
+                    and ap(e.left) == val:
+                okc, coll = _cv_expr(repo, fi, e.comparators[0])
+                if okc and isinstance(coll, (tuple, list, frozenset, set)):
+                    vguards.append(("in", tuple(sorted(coll, key=repr)), pol == isinstance(e.ops[0], ast.In)))
+                    continue
             if isinstance(e, ast.Call) and ap(e.func) == "isinstance" and e.args and ap(e.args[0]) == val:
                 typed = typed or pol
                 continue
@@ -785,6 +845,25 @@ def _shortcut_obligations(ctx, ci: ClassInfo, wr: FuncInfo, rd: FuncInfo):
                 f"{cmpc!r} and returns {rconst!r}")
 
 
+def _reader_shortcut_meaning(ctx, ci: ClassInfo, rd: FuncInfo, main_chain: list):
+    """A reader that returns a constant for certain wire texts without parsing them must return what the parser
+    it bypasses would: for an LLSD XML parser the texts are interpreted per the LLSD XML format."""
+    if not any(op[0] == "call" and op[1].endswith(".parse_xml") for op in main_chain):
+        return
+    for i, (r, vguards, k) in enumerate(_SHORTCUTS.get(rd.full, [])):
+        texts = [c for kind, c, p in vguards if kind == "eq" and p and isinstance(c, (str, bytes))]
+        for kind, c, p in vguards:
+            if kind == "in" and p:
+                texts.extend(t for t in c if isinstance(t, (str, bytes)))
+        for t in sorted(set(texts), key=repr):
+            ok, meaning = _llsd_xml_meaning(t)
+            ctx.require(ok, f"C20.R2: {rd.qual}: shortcut text {t!r} is not a small LLSD XML document I can interpret (re-read)")
+            _ob(ctx, "C20.R2", f"{ci.name}.{rd.name}: shortcut for {t!r} returns what the bypassed parser would",
+                meaning == k and type(meaning) is type(k), ctx.w(rd, r),
+                f"{t!r} denotes {meaning!r} in LLSD XML (it is what the writer emits for {meaning!r}), the shortcut "
+                f"returns {k!r}: such a value does not survive serialise-then-parse")
+
+
 def r2(ctx):
     repo = ctx.repo
     ctx.rule("C20.R2", "every SchemaFieldSerializer subclass defines both text directions, its text and LLSD "
@@ -810,6 +889,7 @@ def r2(ctx):
                ctx.w(res["serialize"], res["serialize"].node), msg)
         npairs += 1
         _shortcut_obligations(ctx, ci, res["serialize"], res["deserialize"])
+        _reader_shortcut_meaning(ctx, ci, res["deserialize"], _for_flavour(res["deserialize"], db, OTHER))
         # LLSD pair per flavour either side distinguishes
         tb, _ = _branches(repo, res["to_llsd"])
         fb, _ = _branches(repo, res["from_llsd"])
@@ -1511,6 +1591,30 @@ def _sender_chunking(ctx, send: FuncInfo, send_fns, pf: FuncInfo, pc: ast.Call):
                 "C20.R4: sender no longer prepends the packed length to the payload variable in Xfer.__init__ (re-read)")
     V = P.targets[0].id
     fn = send.node
+
+    # ---- the "already framed" escape hatch: the type test that elides the prefix must look at the caller's payload.
+    #      A builtin constructor (bytes(x), bytearray(x), ...) returns an exact builtin, so after an unconditional
+    #      `V = bytes(V)` a test for a repo-defined subclass can never hold and the hatch is dead.
+    BUILTIN_CTORS = ("bytes", "bytearray", "memoryview", "str", "list", "tuple", "dict")
+    for e, pol in facts(P, fn):
+        if not (isinstance(e, ast.Call) and ap(e.func) == "isinstance" and len(e.args) == 2 and ap(e.args[0]) == V):
+            continue
+        tnames = [ap(x) for x in (e.args[1].elts if isinstance(e.args[1], (ast.Tuple, ast.List)) else [e.args[1]])]
+        repo_types = [t for t in tnames if t and repo.resolve_class(t, send.module) is not None]
+        if not repo_types:
+            continue
+        test_facts = {(ast.dump(x), p) for x, p in facts(e, fn)}
+        killers = []
+        for st in stores(fn, into_defs=False):
+            if st.kind == "assign" and st.path == V and st.node is not P and isinstance(st.value, ast.Call) \
+                    and ap(st.value.func) in BUILTIN_CTORS and _precedes(st.node, e) \
+                    and {(ast.dump(x), p) for x, p in facts(st.node, fn)} <= test_facts:
+                killers.append(st)
+        _ob(ctx, "C20.R4", f"Xfer sender: the {'/'.join(repo_types)} pass-through test sees the caller's payload",
+            not killers, ctx.w(send, e),
+            f"`{V}` is unconditionally re-bound by `{norm(killers[0].node) if killers else ''}` before "
+            f"`{norm(e)}`: {killers[0].value.func.id if killers else ''}() yields an exact builtin, never a "
+            f"{'/'.join(repo_types)}, so an already framed payload gets a second length prefix")
 
     # ---- chunk productions: (context fn node, evaluator, buffer name there, key, value, loop-likes, statement in
     #      the sender to order against the prefix, expressions of the sender that feed the production)
@@ -2281,6 +2385,19 @@ def r10(ctx):
 
 # =========================================================================== R11
 
+def _expand_predicate(repo, cls: Optional[ClassInfo], e, pol, depth=0):
+    """A condition that is a call of a self./cls. predicate method whose body is one `return <expr>` stands for that
+    expression (predicate extracted into a helper): its atoms, else the condition itself."""
+    if depth < 3 and cls is not None and isinstance(e, ast.Call) and isinstance(e.func, ast.Attribute) \
+            and isinstance(e.func.value, ast.Name) and e.func.value.id in ("self", "cls"):
+        m = _lookup_method(repo, cls, e.func.attr)
+        if m is not None:
+            body = [st for st in m.node.body if not (isinstance(st, ast.Expr) and isinstance(st.value, ast.Constant))]
+            if len(body) == 1 and isinstance(body[0], ast.Return) and body[0].value is not None:
+                return [y for a, p in atoms(body[0].value, pol) for y in _expand_predicate(repo, cls, a, p, depth + 1)]
+    return [(e, pol)]
+
+
 def r11(ctx):
     repo = ctx.repo
     ctx.rule("C20.R11", "mesh SegmentSerializer: the reader unpacks a templated binary field whenever the writer packs "
@@ -2312,6 +2429,7 @@ def r11(ctx):
             if len(sites) == 1:
                 host = next(g for g in fns if any(x is sites[0] for x in calls(g.node, True)))
                 fs = fs + facts(sites[0], host.node)
+        fs = [x for e, pol in fs for x in _expand_predicate(repo, f.cls, e, pol)]
         for e, pol in fs:
             if isinstance(e, ast.Compare) and len(e.ops) == 1 and isinstance(e.ops[0], (ast.In, ast.NotIn)) \
                     and ap(e.comparators[0]) == tab:
